@@ -32,8 +32,8 @@ PROBES = ['held_iterator_met_entry_cached_meanwhile', 'second_cache_created_afte
           'copy_shares_cache', 'prefetch_worker_filled_cache',
           'threshold_crossed_inside_prefetch_iteration', 'mutation_then_reread']
 BUDGET = {
-    'quick': {'families': 1500, 'wall_cap': 240, 'shrink_s': 12},
-    'thorough': {'families': 60000, 'wall_cap': 3000, 'shrink_s': 30},
+    'quick': {'families': 8000, 'wall_cap': 420, 'shrink_s': 12},
+    'thorough': {'families': 80000, 'wall_cap': 5400, 'shrink_s': 30},
 }
 COMPONENTS = {
     'real': ['lazy_dataset.core.CacheDataset / _CacheWrapper / Dataset.cache / from_dataset',
